@@ -289,12 +289,13 @@ theorem roundtrip_covers_counterexample_wide : ¬ RoundtripCovers := by
 
 /-- Regression: the witnesses of the four repaired findings with root cause
 `whole-beyond-int64-shortest-text-inexact` satisfy `Fits`, so they round-trip by
-`roundtrip_covers_partial`: float64(2^63) as a known number, as an inclusive lower bound, as
-an upper bound, and next to uint64(2^63) as the other bound (formerly refused by `Unmarshal`). -/
+`roundtrip_covers_partial`: float64(2^63) as a known number and as an inclusive lower bound,
+float64(2^64 - 2^11) as an upper bound, and float64(2^63) below another whole bound (a pair
+that `Unmarshal` refused when both bounds moved). -/
 theorem roundtrip_whole_beyond_int64_regression :
     Fits E0 .number ⟨.number, .n (.fin false 1 63 53)⟩ = true ∧
     Fits E0 .number ⟨.number, .unk (.num .u (some ⟨.fin false 1 63 53, true⟩) none)⟩ = true ∧
-    Fits E0 .number ⟨.number, .unk (.num .f none (some ⟨.fin false 4503599627370495 12 53, true⟩))⟩ = true ∧
+    Fits E0 .number ⟨.number, .unk (.num .f none (some ⟨.fin false 9007199254740991 11 53, true⟩))⟩ = true ∧
     Fits E0 .number ⟨.number, .unk (.num .u (some ⟨.fin false 1 63 53, true⟩) (some ⟨.fin false 1 64 53, true⟩))⟩ = true := by
   decide +kernel
 
